@@ -7,4 +7,4 @@ META = {"text": 'Same pipeline on wait/wait_for/notify_one/notify_all programs w
 
 
 def run(ctx):
-    kernel_sync.run(ctx, "cv", 150, 1500)
+    kernel_sync.run(ctx, "cv", 150, 600)
